@@ -6,6 +6,7 @@ import (
 	"sync"
 
 	"github.com/buchgr/bazel-remote/v2/cache"
+	"github.com/buchgr/bazel-remote/v2/utils/verifhook"
 
 	pb "github.com/buchgr/bazel-remote/v2/genproto/build/bazel/remote/execution/v2"
 
@@ -142,6 +143,7 @@ func (c *diskCache) findMissingCasBlobsInternal(ctx context.Context, blobs []*pb
 		}()
 
 		// Wait for all proxyChecks to finish or a context cancellation.
+		verifhook.Step("fm.beforeselect", "")
 		select {
 		case <-ctx.Done():
 			if cancelledDueToFailFast {
